@@ -28,15 +28,15 @@ RULE = ("cases: fitter configurations with <= k deviations from the default; exe
         "(fit, model) row, each compared at every grid distance; non-trivial = distinct (configuration, flags, photometry) with >1 grid distance")
 ASSUMPTIONS = ["finite value alphabets (DESIGN.md section 0)", "theta*dmin not below the smallest aperture (precondition)",
                "sources have >= 1 fitted point with non-zero extinction coefficient"]
-REQUIRED_CLASSES = ['grid-of-hundreds-of-models', 'n_distances==1', 'aperture-beyond-table', 'best-at-first', 'best-interior', 'best-at-last', 'av-clipped-some-distances',
+REQUIRED_CLASSES = ['more-than-128-trial-distances', 'av-range-given-as-integers', 'grid-of-hundreds-of-models', 'n_distances==1', 'aperture-beyond-table', 'best-at-first', 'best-interior', 'best-at-last', 'av-clipped-some-distances',
                     'range-multiple-of-step', 'range-exact-multiple-exact-arithmetic', 'float32-path', 'limit-violated', 'non-monotone-growth', 'mixed-theta', 'request-on-smallest-aperture', 'distance-range-in-other-unit', 'apertures-in-other-angular-unit', 'aperture-tables-differ-between-bands', 'aperture-table-stored-decreasing', 'source-reflagged-between-fits']
 TIMEOUT = {'quick': 300, 'thorough': 1800}
 
 AXES = {
     'n_ap': [3, 2, 5, 8],
     'grid': ['mono', 'irregular', 'arbitrary'],
-    'range': ['ord', 'eq', 'beyond', 'onsmallest', 'multiple', 'nonmultiple', 'exactmultiple'],
-    'step': [0.3, 0.1, 0.25],
+    'range': ['ord', 'eq', 'beyond', 'onsmallest', 'multiple', 'nonmultiple', 'exactmultiple', 'wide'],
+    'step': [0.3, 0.1, 0.25, 0.02],          # 0.02 over the wide range: 136 trial distances (beyond 64 / 127)
     'variant': [0, 1, 2, 3],
     'avr': [(-40.0, 40.0), (0.0, 1.0), (2.5, 2.5)],
     'theta': ['uniform', 'mixed'],
@@ -53,7 +53,7 @@ BIG_FLAGS = [(1, 1, 1), (1, 4, 3), (4, 4, 4), (1, 0, 1), (9, 1, 1), (1, 2, 1), (
 def setup(tier, seed):
     axes = dict(AXES)
     if tier == 'thorough':
-        axes = dict(axes, step=[0.3, 0.1, 0.25, 0.025])
+        axes = dict(axes, step=[0.3, 0.1, 0.25, 0.02, 0.025])
     cfgs = list(deviation_bounded(axes, 2 if tier == 'quick' else 3))
     return {'tier': tier, 'seed': seed, 'cfgs': cfgs, 'psets': 3 if tier == 'quick' else 6}
 
@@ -82,6 +82,8 @@ def _range(kind, step, ap, theta):
         return 1.0, 10 ** (3 * step)
     if kind == 'nonmultiple':
         return 1.0, 2.7
+    if kind == 'wide':
+        return 0.12, 60.0
     if kind == 'exactmultiple':
         return 1.0, 10.0            # log range exactly 1: an exact multiple of the steps 0.25 and 0.1 (float arithmetic exact for 0.25)
     raise ValueError(kind)
@@ -123,8 +125,10 @@ def run_case(ctx, case, rec, d):
         rec.cls('aperture-table-stored-decreasing')
     md = fc.build_package(d, 'pkg', spec)
     cfg_key = tuple(sorted((k, str(v)) for k, v in case.items()))
+    # the form in which the A_V range is handed over is not an axis of its own: it rotates with the configuration
+    case = dict(case, avform=['list', 'int', 'tuple', 'intarray'][sum(map(ord, repr(cfg_key))) % 4])
     try:
-        fitter = fc.make_fitter(md, BANDS, 'power', (avlo, avhi), distance_range_kpc=(dmin, dmax), theta=theta, memmap=memmap, by_wavelength=bywav, dunit=case.get('dunit', 'kpc'), tunit=case.get('tunit', 'arcsec'), as_tuple=(case.get('_deviations', 0) % 2 == 1))
+        fitter = fc.make_fitter(md, BANDS, 'power', (avlo, avhi), distance_range_kpc=(dmin, dmax), theta=theta, memmap=memmap, by_wavelength=bywav, dunit=case.get('dunit', 'kpc'), tunit=case.get('tunit', 'arcsec'), as_tuple=(case.get('_deviations', 0) % 2 == 1), av_form=case.get('avform', 'list'))
     except Exception as e:
         # the request as the natural float expression gives it (arcsec x distance in pc): a refusal is acceptable only
         # if rounding really puts it below the smallest tabulated aperture
@@ -153,6 +157,10 @@ def run_case(ctx, case, rec, d):
         return
     if len(grid) == 1:
         rec.cls('n_distances==1')
+    if len(grid) > 128:
+        rec.cls('more-than-128-trial-distances')
+    if case.get('avform', 'list').startswith('int') and avlo == int(avlo) and avhi == int(avhi):
+        rec.cls('av-range-given-as-integers')
     if case['range'] in ('multiple', 'exactmultiple'):
         rec.cls('range-multiple-of-step')
     if case['range'] == 'exactmultiple' and step == 0.25:
